@@ -551,5 +551,25 @@ pub fn c16_exhaustive(acc: &mut Acc) -> Value {
             Ok(Err(_)) => acc.tag("fixture_is_an_error_document"),
         }
     }
-    json!({"repo_fixtures": n, "each_truncated_every_97_bytes": true})
+    // dig::File::open: a missing file is an error, an existing one equals parse(read_to_string)
+    let mut opened = 0;
+    if !cfg!(miri) {
+        match guarded(|| dig::File::open("/nonexistent/dir/none.dig").is_err()) {
+            Ok(true) => {}
+            other => acc.violation(0, "open", Finding::new("open-missing-file", format!("{other:?}")), json!(null)),
+        }
+        if let Ok(rd) = std::fs::read_dir("/repo/tests/data") {
+            for e in rd.filter_map(|e| e.ok()).filter(|e| e.path().extension().map(|x| x == "dig").unwrap_or(false)) {
+                let path = e.path();
+                let via_open = guarded(|| dig::File::open(&path).map(|f| (observed_sigs(&f), f.test_cases.iter().map(|t| (t.name.clone(), t.source.clone())).collect::<Vec<_>>())).map_err(|e| e.to_string()));
+                let text = std::fs::read_to_string(&path).unwrap_or_default();
+                let via_parse = guarded(|| dig::File::parse(&text).map(|f| (observed_sigs(&f), f.test_cases.iter().map(|t| (t.name.clone(), t.source.clone())).collect::<Vec<_>>())).map_err(|e| e.to_string()));
+                opened += 1;
+                if via_open != via_parse {
+                    acc.violation(opened, "open", Finding::new("open-differs-from-parse", format!("{}", path.display())), json!(null));
+                }
+            }
+        }
+    }
+    json!({"repo_fixtures": n, "each_truncated_every_97_bytes": true, "open_vs_parse_compared": opened})
 }
